@@ -22,7 +22,7 @@ RULE = ("triples: CIDAR entry/cassette/device vectors, EcoFlex cassette/device v
         "Non-trivial = product has exactly the two next-level sites and was typed at >= 10 rotations; distinct = distinct (triple, vector, inserts).")
 ASSUMPTIONS = ["inserts are at least two nucleotides long and contain no site of either level's enzyme",
                "for YTK the 'insert' is the template between the type-specific overhangs embedded in the product"]
-FLOORS = {"c11_vectors_with_next_level_site_in_placeholder": 40, "c11_products_typed": 400, "c11_rotations_typed": 6000, "c11_reassembled": 300, "c11_two_level": 20, "c11_triples_seen": 8}
+FLOORS = {"c11_vectors_with_next_level_site_in_placeholder": 40, "c11_products_typed": 400, "c11_rotations_typed": 6000, "c11_reassembled": 300, "c11_reassembled_in_kit_vector": 150, "c11_two_level": 20, "c11_triples_seen": 8}
 MUST_REACH = ["AbstractVector.assemble"]
 BUDGET_S = {"quick": 900, "thorough": 7200}
 
@@ -196,6 +196,56 @@ def reassemble(ctx, Nc, ptext, label, wit, rng):
         ctx.violation("reassembled-product-wrong:" + label, "%s: second-level product is not vector fragment + product fragment" % label, **wit)
 
 
+def kit_next_vector(name):
+    """the kit's own vector class a product of this triple goes into next.  In CIDAR and EcoFlex the levels alternate: a
+    device is cut out with the entry-level enzyme and goes into a plasmid of the *cassette vector* layout (CIDAR DVK, EcoFlex pTU3)"""
+    from moclo.kits import ytk, cidar, ecoflex, moclo as mk
+
+    return {"cidar-entry": cidar.CIDARCassetteVector, "cidar-cassette": cidar.CIDARDeviceVector, "cidar-device": cidar.CIDARCassetteVector,
+            "ecoflex-cassette": ecoflex.EcoFlexDeviceVector, "ecoflex-device": ecoflex.EcoFlexCassetteVector,
+            "moclo-entry": mk.MoCloCassetteVector, "ytk-entry": ytk.YTKCassetteVector}.get(name)
+
+
+def reassemble_in_kit_vector(ctx, name, Nc, ptext, wit, rng):
+    """... and into the kit's own next vector class, instantiated from that class's structure with the two overhangs the
+    product needs (they are free letters in every kit vector structure)"""
+    KV = kit_next_vector(name)
+    if KV is None or KV.cutter.site != Nc.cutter.site:
+        return
+    geom = refmodel.geometry(Nc.cutter)
+    fr = refmodel.module_fragment(ptext.upper(), geom)
+    k = geom[2]
+    if fr is None or fr[2] == fr[3] or fr[2] == rc(fr[2]):
+        return
+    pat = KV.structure()
+    grp = "(" + "N" * k + ")"
+    if pat.count(grp) != 2:
+        return
+    pat = pat.replace(grp, "(" + fr[2] + ")", 1).replace(grp, "(" + fr[3] + ")", 1)
+    for _ in range(20):
+        vtext = gen.instance(rng, pat, run_max=15) + gen.rand_dna(rng, rng.randint(2, 20))
+        vf = refmodel.vector_fragment(vtext.upper(), geom)
+        if nsites(vtext, Nc.cutter) == 2 and vf is not None:
+            break
+    else:
+        ctx.count("kit_vector_reassembly_skipped_unbuildable")
+        return
+    ctx.count("c11_reassembled_in_kit_vector")
+    ctx.hist("c11_kit_next_vector", "%s->%s" % (name, KV.__name__))
+    ctx.count("evaluations")
+    vtext = rot_left(vtext, rng.randrange(len(vtext)))
+    try:
+        p2 = assemble(KV(rec(vtext, "kitnextvec")), [Nc(rec(rot_left(ptext, rng.randrange(len(ptext))), "prod"))])
+    except Exception as e:
+        ctx.violation("product-cannot-be-reassembled-in-kit-vector:" + name, "%s: assembling the product as a %s into a %s raised %s: %s" % (
+            name, Nc.__name__, KV.__name__, type(e).__name__, str(e)[:160]), next_vector=vtext, **wit)
+        return
+    want = refmodel.ligate(vtext.upper(), [ptext.upper()], geom)
+    from ..util import same_circle
+    if want is not None and not same_circle(str(p2.seq).upper(), want):
+        ctx.violation("reassembled-product-wrong:kit-vector:" + name, "%s: product in %s is not vector fragment + product fragment" % (name, KV.__name__), next_vector=vtext, **wit)
+
+
 def one_triple(ctx, name, Vc, Mc, Nc, rng):
     enz, nenz = Vc.cutter, Nc.cutter
     geom = refmodel.geometry(enz)
@@ -319,6 +369,7 @@ def one_triple(ctx, name, Vc, Mc, Nc, rng):
     ok = type_product(ctx, Nc, ptext, insert, name, wit, rng)
     if ok:
         reassemble(ctx, Nc, ptext, name, wit, rng)
+        reassemble_in_kit_vector(ctx, name, Nc, ptext, wit, gen.rng_for("c11-kit-next-vector", name, ptext[:40], len(ptext)))
     ctx.nontrivial([name, sv, mods])
     ctx.sample({"triple": name, "vector_class": Vc.__name__, "next_level": Nc.__name__, "inserts": len(mods), "product_length": len(ptext)}, cap=2)
     return ptext
